@@ -114,6 +114,7 @@ from .asttypes import (
     Store,
     Sub,
     Tuple,
+    TypeAlias,
     TypeIgnore,
     UAdd,
     USub,
@@ -4970,6 +4971,10 @@ class FST:
         if parent := self.parent:
             if ast_cls is Constant and parent.a.__class__ in ASTS_LEAF_FTSTR:
                 return False
+
+            if (pfname := self.pfield.name) == 'target' or pfname == 'name':  # these must be bare names, '((x) := 1)' and 'type (X) = int' are syntax errors
+                if parent.a.__class__ in (NamedExpr, TypeAlias):
+                    return False
 
             while True:
                 ast_cls = parent.a.__class__
